@@ -105,11 +105,17 @@ pub fn replay_pinned(prop: &str, known: &Known) -> Vec<String> {
     out
 }
 
-fn replay_log<S: Sut>(script: &[Act], cfg: Cfg) -> (Option<(String, String)>, Vec<String>) {
+/// (violation kind, detail, known finding that explains it on this history if any), event log
+fn replay_log<S: Sut>(script: &[Act], cfg: Cfg) -> (Option<(String, String, Option<String>)>, Vec<String>) {
     let o = exec::<S>(script, cfg, false);
-    (o.viol.map(|v| (v.kind.to_string(), v.detail)), o.world.log)
+    let v = o.viol.as_ref().map(|v| {
+        let t = crate::campaign::taints_of(&o.world, &cfg, 0);
+        let why = crate::taint::explains(v.kind, &t, S::IS_MAP).map(|s| format!("{s} (triggers on this history: {t:?})"));
+        (v.kind.to_string(), v.detail.clone(), why)
+    });
+    (v, o.world.log)
 }
-pub fn replay_script(sut: &str, script: &[Act], cfg: Cfg) -> (Option<(String, String)>, Vec<String>) {
+pub fn replay_script(sut: &str, script: &[Act], cfg: Cfg) -> (Option<(String, String, Option<String>)>, Vec<String>) {
     dispatch!(sut, replay_log, script, cfg)
 }
 
